@@ -106,8 +106,9 @@ def gen_object(rng, cv, mode):
                 sets.append('%d=%d' % (fid, scalar_values(rng, kind[1], small=(fid in cv.derived and rng.random() < 0.7))))
         elif kind[0] == 'vec':
             ne = vec_len(rng)
-            if mode == 'api':
+            if mode in ('api', 'stale'):
                 # representable: the element count (times its multiplier) fits every length member derived from it
+                # (a payload longer than its length member can express is not a state the format can carry: C01/C03 exclude it)
                 for lf, t, cf, k in cv.derivs:
                     if cf == fid:
                         mx = ((1 << (8 * W[t])) - 1) // k
